@@ -12,6 +12,12 @@
 (* fragment carries the fragment count as its id and the start of the      *)
 (* data, the ids count down to 1).                                         *)
 (*                                                                         *)
+(* The header fragment may carry an atom-cache section in front of its     *)
+(* data (start_fragment takes it as a separate argument); it is the very   *)
+(* beginning of the message under both concatenation orders, so it needs   *)
+(* no token of its own: the binding's "cache" replays attach it to the     *)
+(* header arrival and expect it in front of the returned tokens.           *)
+(*                                                                         *)
 (* Switches.  Protections (TRUE in the code; FALSE yields the design-level *)
 (* counterexample used as an adversarial scenario): DupCheck, RangeCheck,  *)
 (* RemoveOnComplete.  Deviation (TRUE = what the code does, FALSE = what   *)
